@@ -19,6 +19,7 @@ import z3
 
 from pyvc.values import *  # noqa: F401,F403
 from pyvc.engine import Contract, GeneratorContract, Unsupported
+from pyvc.registry import CtxHandler
 from .common import EXC
 from .iface import CI, RI, CONN_RAISES
 from .m_models_fields import REQUEST, RESPONSE, URL
@@ -568,3 +569,54 @@ def register(reg):
                 # passed through unchanged
                 return [("unmatched_and_non_exception_failures_pass_through_unchanged", ("C15", "C16"), exc.cls in ("RuntimeError", "Cancelled"))]
             return [("mapped_to_the_first_matching_entry", ("C15", "C16"), want.get(src) == exc.cls)]
+
+    # ================================================================== httpcore.request() (the one-shot top-level API, sync only)
+    class PoolCtx(CtxHandler):
+        """`with ConnectionPool() as pool:` - enter returns the pool, exit closes it (contracts Enter_/Exit_AsyncConnectionPool above)"""
+
+        def __init__(self, ref):
+            self.ref = ref
+
+        def enter(self, it, st):
+            it.emit(st, "pool.ctx.enter", None, pool=self.ref)
+            return self.ref
+
+        def exit(self, it, st, exc):
+            it.emit(st, "pool.ctx.exit", None, pool=self.ref, exc=exc)
+            return False
+
+    reg.ctx_by_class[POOL] = lambda it, st, ref: PoolCtx(ref)
+
+    @reg.contract
+    class ApiRequest(Contract):
+        """httpcore.request(...): a pool of its own, one request through it with the caller's arguments, and the pool closed again
+        on every way out (C06: nothing stays open behind a one-shot call)"""
+        key = "httpcore._api.request"
+        props = ("C06", "C03", "C01")
+        trees = ("sync",)
+        params = {"method": "val", "url": "val", "headers": "val", "content": "val", "extensions": "val"}
+        raises = API_RAISES + ["TypeError", "ValueError", EXC + "LocalProtocolError"]
+        raises_props = ()
+
+        def _closed(self, c):
+            en = c.events("pool.ctx.enter")
+            ex = c.events("pool.ctx.exit")
+            return z3.And(z3.BoolVal(len(en) == 1 and len(ex) == 1), ex[0].data["pool"].t == en[0].data["pool"].t) if en and ex else z3.BoolVal(len(en) == 0 and len(ex) == 0)
+
+        def callsite(self, c, ev):
+            if ev.name == "call:" + RI + ".request":
+                kw = ev.data["kwargs"]
+                e, st = c.eng, c.st
+                same = [e.to_val(st, kw[n]).t == e.to_val(st, c.args[n]).t for n in ("method", "url", "headers", "content", "extensions") if n in kw]
+                en = c.events("pool.ctx.enter")
+                return [("the_callers_arguments_reach_the_pool_unchanged", ("C03", "C01"), z3.And(z3.BoolVal(len(same) == 5), *same)),
+                        ("sent_through_the_pool_it_has_just_entered", ("C06",), ev.data["self"].t == en[-1].data["pool"].t if en else False)]
+            return []
+
+        def checks(self, c):
+            calls = [e for e in c.trace if e.name == "call:" + RI + ".request" and "result" in e.data]
+            return [("returns_the_pools_response", ("C01",), c.result.t == calls[0].data["result"].t if len(calls) == 1 and isinstance(c.result, VRef) else False),
+                    ("its_own_pool_is_closed_again", ("C06",), self._closed(c))]
+
+        def exc_checks(self, c, exc):
+            return [("its_own_pool_is_closed_again_on_failure", ("C06",), self._closed(c))]
